@@ -15,26 +15,26 @@ Open Scope N_scope.
    1. Status tables (generated from status.rs on every run; a changed arm breaks this theorem).
    u16 <-> variant is a bijection on the 39 variants; codes are three-digit; every phrase is the RFC 2616 section-10
    title of its code (the spelling the Rust source follows); against RFC 7231 section 6.1 / the IANA registry the
-   phrases agree EXCEPT exactly for 413, 414, 416 ("Request Entity Too Large", "Request-URI Too Long", "Requested Range
-   Not Satisfiable" instead of "Payload Too Large", "URI Too Long", "Range Not Satisfiable"); codes of the RFC tables
-   without a variant: 402 (both RFCs), 426 (RFC 7231). *)
+   phrases are the registered ones (RFC 7231 section 6 / IANA) for EVERY variant; they also agree with RFC 2616 except for
+   413, 414, 416, which RFC 7231 renamed ("Payload Too Large", "URI Too Long", "Range Not Satisfiable": fix F38); codes of
+   the RFC tables without a variant: 402 (both RFCs), 426 (RFC 7231). *)
 Theorem C07_status_tables :
   (forall s, s < status_count -> status_of_code (status_code s) = Some s) /\
   (forall s1 s2, s1 < status_count -> s2 < status_count -> status_code s1 = status_code s2 -> s1 = s2) /\
   (forall c s, status_of_code c = Some s -> s < status_count /\ status_code s = c) /\
   (forall s, s < status_count -> 100 <= status_code s /\ status_code s <= 599) /\
-  (forall s, s < status_count -> In (status_code s, status_phrase s) Txt.rfc2616_phrases) /\
+  (forall s, s < status_count -> In (status_code s, status_phrase s) Txt.rfc7231_phrases) /\
   (forall s, s < status_count ->
-     (In (status_code s, status_phrase s) Txt.rfc7231_phrases /\ ~ In (status_code s) [413; 414; 416]) \/
-     (In (status_code s) [413; 414; 416] /\ ~ In (status_code s, status_phrase s) Txt.rfc7231_phrases)) /\
+     In (status_code s, status_phrase s) Txt.rfc2616_phrases \/ In (status_code s) [413; 414; 416]) /\
   (forall c ph, In (c, ph) Txt.rfc2616_phrases -> (exists s, s < status_count /\ status_code s = c) \/ c = 402) /\
   (forall c ph, In (c, ph) Txt.rfc7231_phrases -> (exists s, s < status_count /\ status_code s = c) \/ c = 402 \/ c = 426).
 Proof. exact status_tables_lemma. Qed.
 
-(* the comparison with RFC 7231 / IANA fails for a concrete variant (413): a finding, not hidden *)
-Theorem C07_status_phrases_rfc7231_refuted :
-  exists s, s < status_count /\ status_code s = 413 /\ ~ In (status_code s, status_phrase s) Txt.rfc7231_phrases.
-Proof. exact status_phrases_rfc7231_refuted. Qed.
+(* before fix F38 the comparison with RFC 7231 / IANA failed for 413 / 414 / 416 (RFC 2616 spellings): the old phrase of
+   413 is not in the registry table *)
+Theorem C07_status_phrases_old_refuted :
+  ~ In (413, [82; 101; 113; 117; 101; 115; 116; 32; 69; 110; 116; 105; 116; 121; 32; 84; 111; 111; 32; 76; 97; 114; 103; 101] (* "Request Entity Too Large" *)) Txt.rfc7231_phrases.
+Proof. exact status_phrases_old_rfc7231_refuted. Qed.
 
 (* ---------------------------------------------------------------------------------------------------------------
    2. The serialisation of a well-formed response is a syntactically valid HTTP/1.x message (RFC 7230 section 3):
@@ -237,7 +237,7 @@ Example C07_example_chunked_parse :
 Proof. vm_compute. reflexivity. Qed.
 
 Print Assumptions C07_status_tables.
-Print Assumptions C07_status_phrases_rfc7231_refuted.
+Print Assumptions C07_status_phrases_old_refuted.
 Print Assumptions C07_serialize_valid.
 Print Assumptions C07_serialize_is_message.
 Print Assumptions C07_hsort_stable.
